@@ -113,10 +113,21 @@ def noise_cases(ck: Check):
         rng.shuffle(base)
         base = base[:150]
     n = 0
+    mlines, mimpl, mreps = [], [], []
+
+    def hx(x):
+        return "-" if x is None else ("e" if x == "" else x.encode().hex())
+
     for major, name, server_name, expected, login, invalid in base:
         password = rng.choice([None, "secret"])
         res, info = run_one_noise(major, name, server_name, expected, login, password, invalid)
         n += 1
+        mlines.append(f"cn.session 1 {hx(server_name)} {hx(expected)} {int(login)} {major} {hx(name)} {int(invalid)}")
+        bad_server = (res == "err:badName" and expected is not None and server_name is not None and server_name != expected
+                      and info["received_name"] == server_name)
+        mimpl.append("accept" if res == "ok" else ("err:badServerName" if bad_server else res))
+        mreps.append({"noise": True, "major": major, "name": name, "server_hello_name": server_name, "expected": expected,
+                      "login": login, "invalid_password": invalid, "observed": res})
         rep = {"noise": True, "major": major, "name": name, "server_hello_name": server_name, "expected": expected, "login": login,
                "invalid_password": invalid, "observed": res, "info": {k: str(v) for k, v in info.items()}}
         # the ServerHello name, when announced (even an empty one: C03 "accepted iff no expected name is configured or the
@@ -144,6 +155,15 @@ def noise_cases(ck: Check):
                 bad = f"rejected but state={info['state']} stops={info['stops']}"
         if bad:
             ck.violation("c06:noise:" + bad.split(":")[0].split(" ")[0], "C06 violated on the implementation (noise session): " + bad, rep)
+    # model (Conn.judgeSession) vs implementation on the same noise sessions
+    from common import run_driver
+    out = run_driver(mlines)
+    if out is None:
+        ck.disagreement("driver unavailable", {})
+    else:
+        for l, m, o, rep in zip(mlines, out, mimpl, mreps):
+            if m != o:
+                ck.disagreement("noise session verdict: model != implementation", {**rep, "op": l, "model": m, "impl": o})
     return n
 
 
@@ -263,6 +283,6 @@ def run(ck: Check):
                     for c in cases[:3]],
         "distribution": dist, "exhaustive": thorough,
     })
-    ck.assumptions += ["the model verdict is compared on plaintext sessions; noise sessions (from-spec responder, ServerHello name "
-                       "absent / right / wrong x HelloResponse name x version x login) are judged by the oracle",
+    ck.assumptions += ["noise sessions: a from-spec responder (ServerHello name absent / empty / right / wrong x HelloResponse name x "
+                       "version x login); verdicts compared with Conn.judgeSession and judged by the oracle",
                        "the device stays silent after the swept responses; virtual time runs to the 30 s hello/login timeout"]
